@@ -31,13 +31,15 @@ where
         let n = x.nrows();
         let mut classes = Vec::with_capacity(nclasses);
         let mut likelihood = Array2::zeros((nclasses, n));
-        joint_log_likelihood
-            .iter()
-            .enumerate()
-            .for_each(|(i, (&key, value))| {
-                classes.push(key.clone());
-                likelihood.row_mut(i).assign(value);
-            });
+        // Visit the classes in label order: the iteration order of the hash map differs from
+        // one map to the next, and `argmax` keeps the first of several equal maxima, so tied
+        // posteriors would otherwise be resolved differently from call to call
+        let mut entries: Vec<_> = joint_log_likelihood.iter().collect();
+        entries.sort_by(|a, b| a.0.cmp(b.0));
+        entries.into_iter().enumerate().for_each(|(i, (&key, value))| {
+            classes.push(key.clone());
+            likelihood.row_mut(i).assign(value);
+        });
 
         // Identify the class with the maximum log likelihood
         *y = likelihood.map_axis(Axis(0), |x| {
